@@ -64,13 +64,25 @@ def gen_history(rng, nops):
             ops.append({"op": "owned", "name": name, "from": src, "sym": rng.choice(SYMS), "map": rng.random() < 0.3})
             ofs.append(name)
             deps[name] = {src}
-        elif r < 0.52:
+        elif r < 0.50 and ofs:
+            # forward a handle through a fresh frozen heap (pure forwarding heap or one with a wrapper allocation)
+            name = fresh("o")
+            src = rng.choice(ofs)
+            ops.append({"op": "forward", "name": name, "from": src, "alloc": rng.random() < 0.4})
+            ofs.append(name)
+            deps[name] = {src}
+        elif r < 0.56:
             name = fresh("g")
             srcs = rng.sample(fms, min(len(fms), rng.randint(1, 2)))
-            ops.append({"op": "globals", "name": name, "from": [["GV%d" % i, m, rng.choice(["v", "c", "s"])] for i, m in enumerate(srcs)]})
-            gls.append(name)
+            op = {"op": "globals", "name": name, "from": [["GV%d" % i, m, rng.choice(["v", "c", "s"])] for i, m in enumerate(srcs)]}
             deps[name] = set(srcs)
-        elif r < 0.57 and gls:
+            if ofs and rng.random() < 0.5:
+                o = rng.choice(ofs)
+                op["from_owned"] = [["GO0", o]]
+                deps[name].add(o)
+            ops.append(op)
+            gls.append(name)
+        elif r < 0.60 and gls:
             name = fresh("m")
             g = rng.choice(gls)
             ops.append({"op": "from_globals", "name": name, "from": g})
@@ -81,7 +93,7 @@ def gen_history(rng, nops):
             ofs.append(ofs_name)
             deps[ofs_name] = {name}
             ops.append({"op": "drop", "name": name})
-        elif r < 0.63:
+        elif r < 0.66:
             d = rng.sample(fms, min(len(fms), rng.randint(1, 2)))
             ops.append({"op": "eval", "name": fresh("e"), "src": module_src(k, d, False, False) + "emit(c, f(), d(), s, r)\n", "loads": {"%s.star" % x: x for x in d}})
         else:
